@@ -500,7 +500,7 @@ def rule_h(ck, R):
         ck.verdict(bad is None, 'C08.h', 'send_resp_0', R.where('send_resp_0'), 'no payload, block size 0, code in the meta field, sequence/address echoed' if bad is None else bad)
     # send_early_response: the request header is parsed from the fallback buffer; a response echoing it may only be
     # built when that parse succeeded, header faults are answered with the matching META frame
-    engE = R.engine({'regp_is_read_request', 'regp_is_write_request', 'regp_is_request'})
+    engE = R.engine({'regp_is_read_request', 'regp_is_write_request', 'regp_is_request', 'regp_has_hdcrc'})
     ps = R.paths('send_early_response', 'C08.h', engE)
     if ps is not None:
         bad = None
@@ -524,6 +524,13 @@ def rule_h(ck, R):
                               'response"), and req2resp turns the reply into a META frame with a response code no receiver accepts'
                               % (rs[0].name, '; '.join(fmt(c) for c in p.cond_terms())[:200]))
             if rs:
+                istcp = any(c[0] == 'cmp' and c[1] == '==' and 'ep.type' in fmt(c[2]) and c[3] == C(E['RP_EP_TCP']) for c in p.cond_terms())
+                hdseen = any(c[0] == 'cmp' and c[1] == '==' and c[2][0] == '&b' and c[2][2] == C(E['RP_OPT_WITH_HEADER_CRC']) and c[3] == C(E['RP_OPT_WITH_HEADER_CRC'])
+                             for c in p.cond_terms())
+                if not istcp and not hdseen:
+                    bad = bad or ('%s mirrors sequence number and address of a header received on a serial channel without the WITH-HEADER-CRC bit having been seen set: '
+                                  'such a header is not protected (document 5.1 mandates the checksum), the ordinary path answers it with META EHEADERENC' % rs[0].name)
+            if rs:
                 kinds.add(rs[0].name)
                 if engE.feasible(p.cond_terms() + [('cmp', '<', r, C(0))]):
                     bad = bad or ('%s echoes the frame on a path where parse_header may have failed ({%s}): sequence number and address of the response come from an unparsed frame object'
@@ -535,6 +542,14 @@ def rule_h(ck, R):
                     bad = bad or 'payload class of the early response does not follow the code'
                 if rs[0].name == 'send_resp_32' and not (strip_cast(rs[0].args[3])[0] == 'call' and strip_cast(rs[0].args[3])[1] == 'trxbufsize'):
                     bad = bad or 'ERXOVERFLOW payload is %s, expected trxbufsize(p)' % fmt(rs[0].args[3])
+            elif mt and not engE.feasible(p.cond_terms() + [('cmp', '<', r, C(0))]):
+                # the header parsed: a META reply is right only for a header the channel cannot have delivered intact
+                # (a non-TCP channel and no header checksum declared)
+                notcp = not any(c[0] == 'cmp' and c[1] == '==' and 'ep.type' in fmt(c[2]) and c[3] == C(E['RP_EP_TCP']) for c in p.cond_terms())
+                nohd = any(c[0] == 'cmp' and c[1] == '!=' and c[2][0] == '&b' and c[2][2] == C(E['RP_OPT_WITH_HEADER_CRC']) and c[3] == C(E['RP_OPT_WITH_HEADER_CRC'])
+                           for c in p.cond_terms())
+                if not (notcp and nohd and mt[0].args[1] == C(E['RP_META_EHEADERENC'])):
+                    bad = bad or 'META code %s sent under {%s} although the header parsed' % (fmt(mt[0].args[1]), '; '.join(fmt(c) for c in p.cond_terms())[:160])
             elif mt:
                 kinds.add('meta')
                 want = None
